@@ -7,6 +7,7 @@ From NV Require Import Lib.Res Gen.Fat Fat.Spec.
 From NV Require Import FatTable.Model FatTable.ProofsBase FatTable.ProofsSet32 FatTable.Proofs.
 From NV Require Import FatRead.Model FatRead.ProofsBase FatRead.ProofsGeom FatRead.ProofsRead FatRead.ProofsTime FatRead.Proofs.
 From NV Require FatDir.Model FatDir.ProofsBase FatDir.ProofsSpec.
+From NV Require FatVol.Model FatVol.Spec FatVol.ProofsInv FatVol.ProofsWalk FatVol.ProofsDots FatVol.ProofsEx FatVol.ProofsDotsEx.
 Import ListNotations.
 Open Scope N_scope.'''
 
@@ -34,6 +35,11 @@ mkprops.emit('/verif/coq/Props/C03.v',
      ('C03_read_loop_refines', 'FatRead.ProofsRead.read_loop_refines', 'repeating raw reads (what io.BufferedReader does) yields exactly the requested slice'),
      ('C03_reads_preserve_file', 'FatRead.ProofsRead.run_preserves_file', 'reading never changes map or size (and no data area occurs in any result type)'),
      ('C03_timestamp_spec', 'FatRead.ProofsTime.timestamp_spec', None),
+     ('C03_path_resolution_refines', 'FatVol.ProofsDots.resolved_refines', 'FatPath resolution of ANY component list -- "." and ".." included, which _resolve looks up as the dot entries stored in each sub-directory -- on a consistent volume is the walk over the plain tree the volume holds with a stack of the directories passed: "." stays, ".." pops, and at the root neither exists'),
+     ('C03_path_resolution_confined', 'FatVol.ProofsDots.resolved_confined', 'whatever a path spells, what it reaches is a node of this volume s tree'),
+     ('C03_dot_skipped', 'FatVol.ProofsDots.twalkd_dot', None),
+     ('C03_dotdot_cancels', 'FatVol.ProofsDots.twalkd_dotdot', 'lexical normalisation is sound below the root: "x/.." cancels when x names a directory'),
+     ('C03_dots_example', 'FatVol.ProofsDotsEx.FV_dots_example', 'non-vacuity: a volume grown by a guarded history is in VolInv; /d/e/../f.txt reaches the 700-byte file, "." and ".." at the root reach nothing, a file is not a directory'),
      ('C03_directory_decode_spec', 'FatDir.ProofsSpec.decode_agrees_with_spec', 'the directory decoder of the code (_group_entries / _split_entries / _join_lfn_entries) = the specification decoder on every directory region whose long-name runs are valid or absent: same names, aliases, raw entries, offsets, no orphans'),
     ], tail=SRC03)
 
@@ -123,6 +129,7 @@ mkprops.emit('/verif/coq/Props/C11.v',
     H_NAMES,
     [('C11_lfn_valid_spec', 'FatNames.ProofsValid.lfn_valid_spec', 'valid names = the VFAT rule (deny-list regenerated from fat.py)'),
      ('C11_invalid_rejected', 'FatNames.ProofsValid.invalid_rejected', 'invalid names are rejected with ValueError and nothing is produced'),
+     ('C11_dot_names_rejected', 'FatNames.ProofsValid.dot_names_rejected', '"." and ".." are references, never names: no entry is created under them (the guard of the FatPath mutators is a fact regenerated from path.py)'),
      ('C11_too_long_rejected', 'FatNames.ProofsValid.too_long_rejected', None),
      ('C11_name_roundtrip', 'FatNames.ProofsLfn.name_roundtrip', 'the independent specification reader (Fat.Spec.decode_dir) recovers exactly the name from the records written'),
      ('C11_lfn_entries_standard', 'FatNames.ProofsLfn.lfn_entries_standard', 'order, terminator, padding, checksum, at most 20 records'),
